@@ -158,7 +158,7 @@ func (dc *dirCtx) nameOps(fd *ast.FuncDecl, coll string) ([]string, error) {
 		return nil, fmt.Errorf("range value is not an identifier")
 	}
 	var ops []string
-	started, done, wrote := false, false, false
+	started, done, wrote, joined := false, false, false, false
 	for _, st := range loop.Body.List {
 		switch s := st.(type) {
 		case *ast.AssignStmt:
@@ -174,9 +174,12 @@ func (dc *dirCtx) nameOps(fd *ast.FuncDecl, coll string) ([]string, error) {
 					if !done {
 						return nil, fmt.Errorf("the path is joined before delete(allFiles, fileName)")
 					}
+					joined = true
 					continue
 				}
-				if !started || done {
+				// an assignment after delete(allFiles, fileName) is part of the name computation too: the position of
+				// the in-use mark among the operations is emitted (.mark) and judged by the model (opsOK wants it last)
+				if !started || joined {
 					return nil, fmt.Errorf("assignment to fileName outside the name computation")
 				}
 				o, err := dc.nameExpr(s.Rhs[0])
@@ -209,7 +212,7 @@ func (dc *dirCtx) nameOps(fd *ast.FuncDecl, coll string) ([]string, error) {
 				}
 				continue
 			}
-			if !started || done || s.Init != nil || s.Else != nil || len(s.Body.List) != 1 {
+			if !started || joined || s.Init != nil || s.Else != nil || len(s.Body.List) != 1 {
 				return nil, fmt.Errorf("unsupported conditional assignment to fileName")
 			}
 			as, ok := s.Body.List[0].(*ast.AssignStmt)
@@ -250,10 +253,11 @@ func (dc *dirCtx) nameOps(fd *ast.FuncDecl, coll string) ([]string, error) {
 			if callKey2(s.X) == "delete" {
 				c := s.X.(*ast.CallExpr)
 				if len(c.Args) == 2 && exprKey(c.Args[0]) == "allFiles" && exprKey(c.Args[1]) == "fileName" {
-					if !started || done {
+					if !started || done || joined {
 						return nil, fmt.Errorf("delete(allFiles, fileName) out of place")
 					}
 					done = true
+					ops = append(ops, ".mark")
 				}
 			}
 		}
